@@ -69,6 +69,31 @@ CHECKS = {
             'DBL_MAX and Python ints up to 2^1000 into 28 formats x 5 roundings x 4 routes go to the bound on their own side with that flag.',
             'Trusted: invariant checker mc/props/c02.py:wellformed (Fractions). States with n_word>52 are observed but not expanded; an event '
             'that raises is not a state.', 'DESIGN.md section 4 C02'),
+    'C07': (TECH_E1,
+            'No explored + - * with optimal sizing is inexact, flagged, or off the documented growth format: all ordered pairs of the 44 '
+            'formats with n_word<=4 (thorough 5), n_frac -1..n_word+1, x every code pair (broadcast) x 3 call routes, vector/scalar shapes, '
+            'scalar x scalar; the nine extreme/interior corners of every format pair on the <=26-bit grid with result word<=53; expression-tree '
+            'closure from extreme leaves to depth 2 (thorough 4, one-sided beyond 2) with dedup on (format, code).',
+            'Trusted: growth rules as stated in the property; exact integer arithmetic on codes.', 'DESIGN.md section 4 C07'),
+    'C08': (TECH_E1,
+            'No explored operation into an imposed format differs from the exact result quantized once under the governing configuration: all '
+            'ordered pairs of the 21 (thorough 32) formats with 2<=n_word<=4 (5), n_int>=0 x every code pair x {+,-,*} x {same,largest,smallest} '
+            'x {raw,repr} x 10 modes on the first operand with a different pair on the second; out= / out_like= for every target format x 3 '
+            'target mode pairs; 56 dyadic constants on either side x op_input_size x const_op_sizing; unary - + abs on every code, n_word<=8; '
+            'boundary pairs at 6/8/12 bits. Result config, identity of out, flags compared.',
+            'Trusted: reference quantizer; imposed-format rule for the policies from docs/config.md.', 'DESIGN.md section 4 C08'),
+    'C09': (TECH_E1,
+            'No explored division violates: x/y exact when representable else strictly within one LSB and never overflowing; x//y == floor; '
+            'x%y == x - y*floor(x/y); (x//y)*y + x%y == x; raw == repr on // and %: all ordered pairs of formats n_word<=4 (thorough 5), n_frac '
+            '0..n_word x every code pair with divisor != 0 x {raw,repr} x {trunc,floor,around}; boundary pairs up to 26 bits (result <=53).',
+            'Trusted: Fraction arithmetic; optimal result formats as anchored in the property.', 'DESIGN.md section 4 C09'),
+    'C06': (TECH_E1,
+            'No explored construction infers a format other than the definition-level minimum (fewest fraction bits, then fewest word bits with '
+            'n_int>=0) or stores a dyadic value inexactly: all k/2^f (f<=4,|k|<=256; thorough f<=6,|k|<=1024) and 1296 boundary values '
+            '+-{2^j, 2^j+-2^-f} as int/float/array x signedness x 5 patterns of given sizes; ordered pairs (thorough: triples) from a 12-letter '
+            'array alphabet; capped cases (doubles / arrays needing more than 64 bits): word<=64, error<LSB, inaccuracy iff inexact.',
+            'Trusted: mc/props/c06.py:infer (search over Python ints). Minimality is only demanded inside the stated dyadic domain.',
+            'DESIGN.md section 4 C06'),
 }
 
 NOT_YET = {}
